@@ -2952,6 +2952,11 @@ class Group(System):
             The initialized jacobian.
         """
         if self._relevance_changed():
+            if self._jacobian is not None and self._owns_approx_jac and self.pathname:
+                # The approximations of this semi-total group were set up for the variables that
+                # were relevant to the previous set of total derivatives, so set them up again.
+                self._clear_jac_caches()
+                self._setup_approx_derivs()
             self._jacobian = None
 
         if self._jacobian is None:
